@@ -87,34 +87,49 @@ def main():
         print(json.dumps({k: old.get(k) for k in ("seed", "property", "confirmed", "detected")}))
         return
     # run the check against the defect
-    rc, out = sh("git -C /repo status --porcelain")
-    if out.strip():
-        print("REFUSING: /repo is not clean"); sys.exit(2)
-    try:
-        rc, out = sh("git -C /repo apply %s" % patch)
-        t0 = time.time()
-        rc, out = sh("python3 tools/check.py %s --tier quick" % prop, cwd=VERIF, timeout=3600)
-        meta["check_exit"] = rc
-        meta["check_wall_s"] = round(time.time() - t0, 1)
-        vl = [l for l in out.split("\n") if l.startswith("VIOLATION")]
-        meta["violation_line"] = vl[0] if vl else None
-        meta["check_tail"] = out[-800:]
-        meta["detected"] = rc != 0 and bool(vl)
-        if vl:
-            m = re.search(r"replay=(\S+)", vl[0])
-            if m and os.path.exists(m.group(1)):
-                r = json.load(open(m.group(1)))
-                meta["replay_kind"] = r.get("kind")
-                meta["replay_summary"] = (r.get("meaning") or r.get("obligation") or "")[:300]
-    finally:
-        sh("git -C /repo checkout -- . && git -C /repo clean -fdq")
+    if "--wt" in sys.argv:
+        # parallel-safe mode: the check reads a scratch worktree carrying the patch (VERIF_REPO), /repo is untouched
+        wt2 = tempfile.mkdtemp(prefix="seedchk_", dir="/tmp")
+        os.rmdir(wt2)
+        sh("git -C /repo worktree add -q --detach %s HEAD" % wt2)
+        try:
+            rc, out = sh("git apply %s" % patch, cwd=wt2)
+            t0 = time.time()
+            rc, out = sh("VERIF_REPO=%s python3 tools/check.py %s --tier quick" % (wt2, prop), cwd=VERIF, timeout=3600)
+            run_desc = "scratch worktree with patch.diff applied; VERIF_REPO=<worktree> python3 tools/check.py %s --tier quick" % prop
+        finally:
+            sh("git -C /repo worktree remove --force %s" % wt2)
+            shutil.rmtree(wt2, ignore_errors=True)
+    else:
+        rc0, out0 = sh("git -C /repo status --porcelain")
+        if out0.strip():
+            print("REFUSING: /repo is not clean"); sys.exit(2)
+        try:
+            sh("git -C /repo apply %s" % patch)
+            t0 = time.time()
+            rc, out = sh("python3 tools/check.py %s --tier quick" % prop, cwd=VERIF, timeout=3600)
+            run_desc = "git -C /repo apply patch.diff; python3 tools/check.py %s --tier quick; git -C /repo checkout -- ." % prop
+        finally:
+            sh("git -C /repo checkout -- . && git -C /repo clean -fdq")
+    meta["check_exit"] = rc
+    meta["check_wall_s"] = round(time.time() - t0, 1)
+    vl = [l for l in out.split("\n") if l.startswith("VIOLATION")]
+    meta["violation_line"] = vl[0] if vl else None
+    meta["check_tail"] = out[-800:]
+    meta["detected"] = rc != 0 and bool(vl)
+    if vl:
+        m = re.search(r"replay=(\S+)", vl[0])
+        if m and os.path.exists(m.group(1)):
+            r = json.load(open(m.group(1)))
+            meta["replay_kind"] = r.get("kind")
+            meta["replay_summary"] = (r.get("meaning") or r.get("obligation") or "")[:300]
     dest = os.path.join(VERIF, "seeded", name)
     os.makedirs(dest, exist_ok=True)
     for f in os.listdir(seed):
         if f.endswith((".diff", ".go", ".sh", ".md")) and os.path.abspath(seed) != os.path.abspath(dest):
             shutil.copy(os.path.join(seed, f), os.path.join(dest, f))
     meta["what_ran"] = ["scratch worktree: git apply; go build ./...; go test -mod=mod -vet=off -count=1 ./...; demo.sh with and without patch",
-                        "git -C /repo apply patch.diff; python3 tools/check.py %s --tier quick; git -C /repo checkout -- ." % prop]
+                        run_desc]
     readme = os.path.join(seed, "README.md")
     if os.path.exists(readme):
         meta["needs_to_manifest"] = open(readme).read()[:1200]
